@@ -30,7 +30,7 @@ theorem forall₂_imp_mem {α β : Type} {R S : α → β → Prop} {l₁ : List
     intro a b ha hb; exact H a b (by simp [ha]) (by simp [hb])
 
 theorem punct_of (s : FE) (t : Nat) (h : armedBefore s t = false) :
-    ∀ cl ∈ s.calls, ∀ due, cl.phase = .live (some due) → t ≤ due := by
+    ∀ cl ∈ s.calls, ∀ due, cl.armedDue = some due → t ≤ due := by
   intro cl hcl due hp
   unfold armedBefore at h
   rw [List.any_eq_false] at h
@@ -38,18 +38,18 @@ theorem punct_of (s : FE) (t : Nat) (h : armedBefore s t = false) :
   simp [hp] at this; exact this
 
 theorem punct_strict_of (s : FE) (t : Nat) (h : armedAtOrBefore s t = false) :
-    ∀ cl ∈ s.calls, ∀ due, cl.phase = .live (some due) → t < due := by
+    ∀ cl ∈ s.calls, ∀ due, cl.armedDue = some due → t < due := by
   intro cl hcl due hp
   unfold armedAtOrBefore at h
   rw [List.any_eq_false] at h
   have := h cl hcl
   simp [hp] at this; exact this
 
-theorem dispatch_new_zero (n t : Nat) : (newCall n t 0).dispatch t =
+theorem dispatch_new_zero (n t : Nat) : (newCall n t 0 false).dispatch t =
     { cid := n, issueT := t, T := 0, phase := .live none, evtSet := false, lowerGot := true, sets := [] } := by
   simp [Call.dispatch, newCall]
 
-theorem dispatch_new_pos (n t T : Nat) (hT : T ≠ 0) : (newCall n t T).dispatch t =
+theorem dispatch_new_pos (n t T : Nat) (hT : T ≠ 0) : (newCall n t T false).dispatch t =
     { cid := n, issueT := t, T := T, phase := .live (some (roundUp (t + T))), evtSet := false, lowerGot := true,
       sets := [] } := by
   have hd : ¬ (t + T < t) := by omega
@@ -59,8 +59,8 @@ theorem dispatch_new_pos (n t T : Nat) (hT : T ≠ 0) : (newCall n t T).dispatch
 theorem step_new (a : Acc) (s : FE) (hrel : Rel a s) (T t : Nat) (idx : Nat) :
     let a' := a.after (.issue T t)
     let cl' := (match s.openSt with
-      | .done _ _ => (newCall s.calls.length t T).dispatch t
-      | .pending => newCall s.calls.length t T)
+      | .done _ _ => (newCall s.calls.length t T false).dispatch t
+      | .pending => newCall s.calls.length t T true)
     StepOK a'.openAt a' idx (.issue T t)
       { cid := a.infos.length, issueT := t, T := T, preOpen := a.openAt.isNone } cl' := by
   intro a' cl'
@@ -69,11 +69,12 @@ theorem step_new (a : Acc) (s : FE) (hrel : Rel a s) (T t : Nat) (idx : Nat) :
   cases hos : s.openSt with
   | pending =>
     have hnone : a.openAt = none := hrel.openNone.mpr hos
-    have hcl : cl' = newCall s.calls.length t T := by simp [cl', hos]
+    have hcl : cl' = newCall s.calls.length t T true := by simp [cl', hos]
     rw [hcl, hoa, hnone]
     have hinv : CallInv none { cid := a.infos.length, issueT := t, T := T, preOpen := (none : Option Nat).isNone }
-        (newCall s.calls.length t T) :=
-      ⟨by simp [newCall, hlen], rfl, rfl, by simp [newCall], by simp [newCall], by simp [newCall],
+        (newCall s.calls.length t T true) :=
+      ⟨by simp [newCall, hlen], rfl, rfl, by simp [newCall], by simp [newCall],
+        by intro g hg; simp only [newCall, Phase.waitOpen.injEq] at hg; simp [newCall, ← hg],
         by simp, by simp [newCall], by simp [newCall], by simp [newCall]⟩
     refine ⟨hinv, ?_, note1_first _ _ (by simp [newCall]) (Or.inl rfl)⟩
     intro c
@@ -88,7 +89,7 @@ theorem step_new (a : Acc) (s : FE) (hrel : Rel a s) (T t : Nat) (idx : Nat) :
   | done ok t0 =>
     have hsome : a.openAt ≠ none := fun h => by have := hrel.openNone.mp h; rw [hos] at this; cases this
     obtain ⟨t1, ht1⟩ := Option.ne_none_iff_exists'.mp hsome
-    have hcl : cl' = (newCall s.calls.length t T).dispatch t := by simp [cl', hos]
+    have hcl : cl' = (newCall s.calls.length t T false).dispatch t := by simp [cl', hos]
     rw [hcl, hoa, ht1]
     by_cases hT : T = 0
     · subst hT
@@ -180,16 +181,23 @@ theorem after_step (a : Acc) (s : FE) (hrel : Rel a s) (op : Op) (hok : opOk s o
       apply forall₂_imp_mem hcalls
       intro i cl _ hcl hg
       rw [hnone] at hg
-      by_cases hp : cl.phase = .waitOpen
-      · have := fun c => step_dispatch (a.after (.openDone ok t)) t ha'.1 idx c (.openDone ok t) rfl rfl i i cl
-          hg.1 hg.2 ⟨rfl, rfl, rfl, rfl, rfl⟩ hp
+      cases hph : cl.phase with
+      | waitOpen g =>
+        have := fun c => step_dispatch (a.after (.openDone ok t)) t ha'.1 idx c (.openDone ok t) rfl rfl i i cl
+          hg.1 hg.2 ⟨rfl, rfl, rfl, rfl, rfl⟩ g hph (fun due hd => hpunct cl hcl due hd)
         exact ⟨(this 0).1, fun c => (this c).2.1, (this 0).2.2⟩
-      · have hid : cl.dispatch t = cl := by
-          unfold Call.dispatch
-          cases hph : cl.phase <;> simp_all
+      | live d =>
+        have hid : cl.dispatch t = cl := by unfold Call.dispatch; simp [hph]
         rw [hid]
         have := fun c => step_same none (some t) (a.after (.openDone ok t)) ha'.1 idx c (.openDone ok t) i i cl
-          hg.1 hg.2 ⟨rfl, rfl, rfl, rfl, rfl⟩ (Or.inr ⟨rfl, hp⟩)
+          hg.1 hg.2 ⟨rfl, rfl, rfl, rfl, rfl⟩ (Or.inr ⟨rfl, fun g => by rw [hph]; simp⟩)
+          (fun due hp => ⟨hpunct cl hcl due hp, fun h => by cases h⟩)
+        exact ⟨(this 0).1, fun c => (this c).2.1, (this 0).2.2⟩
+      | over e =>
+        have hid : cl.dispatch t = cl := by unfold Call.dispatch; simp [hph]
+        rw [hid]
+        have := fun c => step_same none (some t) (a.after (.openDone ok t)) ha'.1 idx c (.openDone ok t) i i cl
+          hg.1 hg.2 ⟨rfl, rfl, rfl, rfl, rfl⟩ (Or.inr ⟨rfl, fun g => by rw [hph]; simp⟩)
           (fun due hp => ⟨hpunct cl hcl due hp, fun h => by cases h⟩)
         exact ⟨(this 0).1, fun c => (this c).2.1, (this 0).2.2⟩
   | lower c0 o t =>
@@ -265,7 +273,7 @@ theorem specCalls_acceptable (a : Acc) (idx : Nat) (op : Op) (oa : Option Nat) :
       ∀ c, Acceptable (specCalls a idx op c infos (calls.map viewOf)) := by
   intro infos calls h
   induction h with
-  | nil => intro c; exact Or.inl rfl
+  | nil => intro c; rfl
   | cons hab _ ih =>
     intro c
     simp only [List.map_cons, specCalls]
@@ -287,7 +295,7 @@ theorem specGo_acceptable : ∀ (ops : List Op) (a : Acc) (s : FE) (idx : Nat), 
     Acceptable (specGo a idx (comp.trace () s ops)) := by
   intro ops
   induction ops with
-  | nil => intro a s idx _ _; exact Or.inl rfl
+  | nil => intro a s idx _ _; rfl
   | cons op ops ih =>
     intro a s idx hrel hok
     simp only [opsOk, Bool.and_eq_true] at hok
@@ -300,11 +308,11 @@ theorem specGo_acceptable : ∀ (ops : List Op) (a : Acc) (s : FE) (idx : Nat), 
       exact ⟨hopen, noteFirst_good _ idx op _ _ _ hstep⟩
 
 /-- **C01, specification level.**  For every legal operation list the history of the model is
-    accepted by the executable specification, or the only thing the specification objects to
-    is the known finding K1 (a call issued before the client finished opening, whose timeout
-    elapsed before opening completed). -/
+    accepted by the executable specification — every clause of it, the deadline bound included,
+    also for calls issued before the client finished opening (the dispatcher keeps its own timer
+    for them, `_DispatchWhenOpen`). -/
 theorem C01_model_satisfies_spec (ops : List Op) (hok : opsOk FE.init ops = true) :
-    spec () (comp.modelTrace () ops) = .ok ∨ isOpenLate (spec () (comp.modelTrace () ops)) = true := by
+    spec () (comp.modelTrace () ops) = .ok := by
   apply specGo_acceptable ops {} FE.init 0 _ hok
   exact ⟨by simp [FE.init], .nil⟩
 
@@ -376,124 +384,92 @@ theorem C01_late_arrivals_inert (cl : Call) (now : Nat) (o : Outcome)
   unfold Call.fire
   cases t <;> simp [ht]
 
-/-! ### the deadline bound: proved when the client is open before calls are issued, false
-    in general (K1) -/
+/-! ### the deadline bound -/
 
-theorem specCall_not_openLate (a : Acc) (idx : Nat) (op : Op) (c : Nat) (i : CallInfo) (v : CallView)
-    (h : i.preOpen = false) : isOpenLate (specCall a idx op c i v) = false := by
-  have hol : openLate a i = false := by simp [openLate, h]
-  unfold specCall
-  simp only [hol, Verdict.and]
-  repeat' split
-  all_goals (first | rfl | (simp [isOpenLate]; done) | (simp_all; done))
+theorem opsOk_append : ∀ (ops : List Op) (s : FE) (op : Op), opsOk s (ops ++ [op]) = true →
+    opsOk s ops = true ∧ opOk (runOps s ops) op = true := by
+  intro ops
+  induction ops with
+  | nil => intro s op h; simpa [opsOk, runOps] using h
+  | cons o os ih =>
+    intro s op h
+    simp only [List.cons_append, opsOk, Bool.and_eq_true] at h
+    obtain ⟨h1, h2⟩ := ih (stepSt s o) op h.2
+    exact ⟨by simp [opsOk, h.1, h1], by simpa [runOps] using h2⟩
 
+/-- Every call that has a timeout and is not complete has a timer queued for its rounded
+    deadline, in every reachable state: the timeout sink's once the call has been dispatched,
+    the dispatcher's own while the client is still opening. -/
+theorem C01_pending_call_has_timer (ops : List Op) (hok : opsOk FE.init ops = true) :
+    ∀ cl ∈ (runOps FE.init ops).calls, 0 < cl.T → cl.sets = [] →
+      cl.armedDue = some (roundUp (cl.issueT + cl.T)) := by
+  obtain ⟨a, hrel⟩ := reachable_rel ops {} FE.init ⟨by simp [FE.init], .nil⟩ hok
+  intro cl hcl
+  have : ∀ (infos : List CallInfo) (calls : List Call), List.Forall₂ (Good a.openAt) infos calls →
+      ∀ cl ∈ calls, 0 < cl.T → cl.sets = [] → cl.armedDue = some (roundUp (cl.issueT + cl.T)) := by
+    intro infos calls h
+    induction h with
+    | nil => intro cl h; cases h
+    | cons hab _ ih =>
+      intro cl h
+      rcases List.mem_cons.mp h with h | h
+      · subst h
+        intro hT hs
+        have hinv := hab.1
+        unfold Call.armedDue
+        cases hp : cl.phase with
+        | waitOpen g =>
+          have := (hinv.waiting g hp).2.2.2
+          rw [if_pos hT] at this; simp [this]
+        | live d =>
+          cases d with
+          | none => have := hinv.liveNone hp; omega
+          | some due => obtain ⟨e, _⟩ := hinv.liveDue due hp; simp [e]
+        | over t =>
+          have := (hinv.overIff).mp ⟨t, hp⟩
+          exact absurd hs this
+      · exact ih cl h
+  exact this _ _ hrel.calls cl hcl
 
-theorem and_not_openLate (v : Verdict) (f : Unit → Verdict) (h1 : isOpenLate v = false)
-    (h2 : isOpenLate (f ()) = false) : isOpenLate (v.and f) = false := by
-  cases v with
-  | ok => exact h2
-  | fail c ps => exact h1
+/-- **Deadline bound.**  A call with timeout T issued at t — before or after the client finished
+    opening — is complete at every quiescent point from ⌈t+T⌉ (10 ms grid) on: if, after any legal
+    history, the clock can reach `now ≥ ⌈t+T⌉` with no queued timer overdue (the timer queue's
+    contract, C10), the call's result has been set. -/
+theorem C01_deadline_bound (ops : List Op) (now : Nat) (hok : opsOk FE.init (ops ++ [.tick now]) = true) :
+    ∀ cl ∈ (runOps FE.init ops).calls, 0 < cl.T → roundUp (cl.issueT + cl.T) ≤ now → cl.sets ≠ [] := by
+  obtain ⟨h1, h2⟩ := opsOk_append ops FE.init (.tick now) hok
+  intro cl hcl hT hdue hs
+  have harmed := C01_pending_call_has_timer ops h1 cl hcl hT hs
+  have hstrict : armedAtOrBefore (runOps FE.init ops) now = false := by
+    unfold opOk at h2
+    simp only [Bool.and_eq_true, Bool.not_eq_true'] at h2
+    exact h2.2
+  have := punct_strict_of _ now hstrict cl hcl _ harmed
+  omega
 
-theorem specCalls_not_openLate (a : Acc) (idx : Nat) (op : Op) :
-    ∀ (infos : List CallInfo) (vs : List CallView) (c : Nat), (∀ i ∈ infos, i.preOpen = false) →
-      isOpenLate (specCalls a idx op c infos vs) = false := by
-  intro infos
-  induction infos with
-  | nil => intro vs c _; cases vs <;> rfl
-  | cons i is ih =>
-    intro vs c h
-    cases vs with
-    | nil => rfl
-    | cons v vs =>
-      simp only [specCalls]
-      exact and_not_openLate _ _ (specCall_not_openLate a idx op c i v (h i (by simp)))
-        (ih vs (c + 1) (fun j hj => h j (by simp [hj])))
-
-theorem noteFirst_preOpen : ∀ (infos : List CallInfo) (vs : List CallView),
-    (∀ i ∈ infos, i.preOpen = false) → ∀ i ∈ noteFirst infos vs, i.preOpen = false := by
-  intro infos
-  induction infos with
-  | nil => intro vs _ i hi; cases vs <;> simp [noteFirst] at hi
-  | cons j js ih =>
-    intro vs h i hi
-    cases vs with
-    | nil => simp only [noteFirst] at hi; exact h i hi
-    | cons v vs =>
-      simp only [noteFirst, List.mem_cons] at hi
-      rcases hi with hi | hi
-      · rw [hi, (note1_fields j v).2.2.2.1]; exact h j (by simp)
-      · exact ih vs (fun k hk => h k (by simp [hk])) i hi
-
-theorem specGo_not_openLate : ∀ (h : List (Op × Obs)) (a : Acc) (idx : Nat), a.openAt ≠ none →
-    (∀ i ∈ a.infos, i.preOpen = false) → isOpenLate (specGo a idx h) = false := by
-  intro h
-  induction h with
-  | nil => intros; rfl
-  | cons p rest ih =>
-    intro a idx hoa hpre
-    obtain ⟨op, o⟩ := p
-    have hoa' : (a.after op).openAt ≠ none := by
-      cases op <;> simp only [Acc.after] <;> first | exact hoa | (split <;> simp_all)
-    have hpre' : ∀ i ∈ (a.after op).infos, i.preOpen = false := by
-      intro i hi
-      cases op with
-      | issue T t =>
-        simp only [Acc.after, List.mem_append, List.mem_singleton] at hi
-        rcases hi with hi | hi
-        · exact hpre i hi
-        · subst hi
-          cases hx : a.openAt with
-          | none => exact absurd hx hoa
-          | some _ => simp
-      | openDone ok t =>
-        simp only [Acc.after] at hi
-        split at hi <;> exact hpre i hi
-      | lower c o t =>
-        simp only [Acc.after, List.mem_map] at hi
-        obtain ⟨j, hj, rfl⟩ := hi
-        split <;> simp [hpre j hj]
-      | fire cs t =>
-        simp only [Acc.after, List.mem_map] at hi
-        obtain ⟨j, hj, rfl⟩ := hi
-        split <;> simp [hpre j hj]
-      | tick t => exact hpre i hi
-    simp only [specGo]
-    apply and_not_openLate
-    · exact specCalls_not_openLate _ idx op _ _ 0 hpre'
-    · exact ih _ (idx + 1) hoa' (noteFirst_preOpen _ _ hpre')
-
-/-- **Deadline bound (partial).**  When the client has finished opening before the first call is
-    issued, every clause of the specification holds of the model for every legal history: each
-    call with timeout T issued at t is complete at every quiescent point from ⌈t+T⌉ (10 ms grid)
-    on, TimeoutError is never delivered before t+T, outcomes come from what the environment
-    posted, and nothing changes after completion. -/
-theorem C01_deadline_bound_partial (ok : Bool) (t0 : Nat) (ops : List Op)
-    (hok : opsOk FE.init (.openDone ok t0 :: ops) = true) :
-    spec () (comp.modelTrace () (.openDone ok t0 :: ops)) = .ok := by
-  rcases C01_model_satisfies_spec _ hok with h | h
-  · exact h
-  · exfalso
-    have : isOpenLate (spec () (comp.modelTrace () (.openDone ok t0 :: ops))) = false := by
-      unfold spec TComp.modelTrace
-      simp only [TComp.trace, specGo]
-      apply and_not_openLate
-      · rfl
-      · apply specGo_not_openLate
-        · simp [Acc.after]
-        · intro i hi; simp [Acc.after, noteFirst] at hi
-    rw [this] at h; cases h
-
-/-- **K1 (known finding), as a theorem about the model.**  A call issued before the client has
-    finished opening has no timer until opening completes: if opening never completes (or takes
-    longer than the call's timeout) the bound is missed.  Here: T = 25 ms issued at 3.7 ms, the
-    clock reaches 4 s, the call is still pending. -/
-theorem C01_deadline_bound_open_slow_counterexample :
-    opsOk FE.init [.issue 25000 3700, .tick 4003700] = true ∧
-    isOpenLate (spec () (comp.modelTrace () [.issue 25000 3700, .tick 4003700])) = true ∧
-    (spec () (comp.modelTrace () [.issue 25000 3700, .tick 4003700])).isOk = false := by
+/-- the scenario of the former finding K1 (repaired in /repo): T = 25 ms issued at 3.7 ms while the
+    client never finishes opening.  The dispatcher's timer completes the call with TimeoutError at
+    the rounded deadline; letting the clock run on without that timer firing is not a legal history
+    of a punctual timer queue. -/
+theorem C01_deadline_bound_open_never_completes :
+    opsOk FE.init [.issue 25000 3700, .fire [0] 30000, .tick 4003700] = true ∧
+    (spec () (comp.modelTrace () [.issue 25000 3700, .fire [0] 30000, .tick 4003700])).isOk = true ∧
+    (runOps FE.init [.issue 25000 3700, .fire [0] 30000, .tick 4003700]).calls.map (fun c => c.sets) =
+      [[(30000, .timeout)]] ∧
+    opsOk FE.init [.issue 25000 3700, .tick 4003700] = false := by
   decide
 
-/-! non-vacuity: a legal history with a reply, a late duplicate, a timer and a pre-open call -/
+/-! non-vacuity: a legal history with a reply, a late duplicate and a timer; and one with calls
+    issued before the client finished opening (one timed out by the dispatcher's timer, one
+    dispatched when opening completes) -/
+example : opsOk FE.init
+    [.issue 25000 3700, .issue 95000 3700, .fire [0] 30000, .openDone true 43700, .lower 1 (.ok 9) 53700,
+     .tick 203700] = true ∧
+    (runOps FE.init
+    [.issue 25000 3700, .issue 95000 3700, .fire [0] 30000, .openDone true 43700, .lower 1 (.ok 9) 53700,
+     .tick 203700]).calls.map (fun c => (c.sets, c.lowerGot)) =
+    [([(30000, .timeout)], false), ([(53700, .ok 9)], true)] := by decide
+
 example : opsOk FE.init
     [.openDone true 0, .issue 25000 3700, .issue 17000 3700, .lower 0 (.ok 5) 13700, .lower 0 (.ok 6) 13700,
      .fire [1] 30000, .tick 53700] = true := by decide
